@@ -107,3 +107,11 @@ def tuple_word(I, B, o, size, little):
     f8 = z3.Function('Dwarf_uint64', ArrS, IntS, IntS)
     sz = to_int(size)
     return z3.If(sz == 4, f4(B.arr, to_int(o)), f8(B.arr, to_int(o)))
+
+
+@_native
+def types_wellformed(I, B):
+    """well-formedness of .debug_types used by the lookup of a type entry: in every type unit header the type_offset
+    designates a position at or after the unit's first entry"""
+    o = z3.Int('o!twf')
+    return z3.ForAll([o], _T['type_offset'](B.arr, o) + o >= _T['die_offset'](B.arr, o))
